@@ -288,7 +288,7 @@ func c18() []*Ob {
 					// the current generation is rotated out and marked stale exactly when the older ones did not free enough
 					var target ssa.Value
 					for _, p := range fn.Params {
-						if p.Name() == "sizeToClean" {
+						if ParamName(p) == "sizeToClean" {
 							target = p
 						}
 					}
